@@ -143,6 +143,8 @@ type g04Opts struct {
 	// or a fast path that depends on a length shows only there).
 	// 1 separator run, 2 NUL/LF run inside the scheme, 3 leading-junk run,
 	// 4 white-space run around '=', (NUL runs inside names go through nulAt)
+	unclosed   bool // the value's opening quote is never closed (the vector ends the input)
+	leadNul    int  // NUL bytes between '<' and the tag name (tag vectors)
 	stretch    int
 	stretchLen int
 	// wide: character references above 0xFF whose low byte is the scheme
@@ -296,7 +298,7 @@ func g04Render(v g04Vec, o g04Opts) string {
 	switch v.kind {
 	case "tag":
 		name := insertNul(applyMask(v.name, o.mask), o.nulAt)
-		return g04TagPrefixes[o.prefix%len(g04TagPrefixes)] + "<" + name + g04TagEnds[o.end%len(g04TagEnds)]
+		return g04TagPrefixes[o.prefix%len(g04TagPrefixes)] + "<" + strings.Repeat("\x00", o.leadNul) + name + g04TagEnds[o.end%len(g04TagEnds)]
 	case "markup":
 		return g04TagPrefixes[o.prefix%len(g04TagPrefixes)] + applyMask(v.value, o.mask)
 	}
@@ -371,6 +373,10 @@ func g04Render(v g04Vec, o g04Opts) string {
 			}
 		}
 	}
+	if o.unclosed && q != "" {
+		// the quote is opened and the input ends inside the value
+		return p.text + sep + dup + name + pad[0] + "=" + pad[1] + q + val
+	}
 	s := p.text + sep + dup + name + pad[0] + "=" + pad[1] + q + val + q
 	if p.needGT || o.end%2 == 0 {
 		s += ">"
@@ -428,7 +434,13 @@ func genC04x(w *core.Worker, u core.Unit, wide bool, emit func(s, meta string)) 
 				o.prefix = (j * 3) % 5 // data-context prefixes carry a host tag
 				o.quote = j % len(g04Quotes)
 			default:
-				// NUL at each interior position of the name
+				// NUL at each interior position of the name; every third step also
+				// 1-3 NULs in front of a tag name / the value's quote left open
+				if j%3 == 0 {
+					o.leadNul = 1 + j%3 + j%2
+					o.unclosed = true
+					o.quote = 1 + j%3
+				}
 				o.nulAt = 1 + (j - np - len(g04Seps) - len(g04Quotes) - 4 - len(g04TagEnds) - len(g04EqPad) - 4)
 				if o.nulAt >= len(v.name) {
 					o.nulAt = 1 + o.nulAt%max(1, len(v.name)-1)
@@ -452,6 +464,12 @@ func genC04x(w *core.Worker, u core.Unit, wide bool, emit func(s, meta string)) 
 			}
 			if r.Intn(6) == 0 {
 				o.dup = 1 + r.Intn(2)
+			}
+			if r.Intn(8) == 0 {
+				o.unclosed = true
+			}
+			if r.Intn(6) == 0 {
+				o.leadNul = 1 + r.Intn(4)
 			}
 			if r.Intn(12) == 0 {
 				o.stretchLen = g04StretchLens[r.Intn(len(g04StretchLens))]
@@ -494,7 +512,7 @@ func g04SweepSize() uint64 {
 func c04() *core.Check {
 	return &core.Check{
 		ID: "C04",
-		Rule: "members of the fixed vector grammar G_xss built from the live lists (every black tag, every on* event, style/filter, every URL attribute x scheme, xmlns/xlink/datasrc/dataformatas, attributename indirection, DOCTYPE/ENTITY/<?import/<?xml/IE-conditional/back-tick-comment markup) behind every breakout prefix: an axis-wise sweep (every vector x every prefix, separator, quoting, case mask, tag end, NUL position) followed by random products incl. per-byte character-reference encodings, leading junk and NUL/LF inside schemes, and one in twelve with one obfuscation (separator run, NUL/LF run inside the scheme, leading junk, white space around '=', NUL run inside the name) stretched to a threshold length between 63 and 65537 bytes. Oracle: IsXSS = true. " +
+		Rule: "members of the fixed vector grammar G_xss built from the live lists (every black tag, every on* event, style/filter, every URL attribute x scheme, xmlns/xlink/datasrc/dataformatas, attributename indirection, DOCTYPE/ENTITY/<?import/<?xml/IE-conditional/back-tick-comment markup) behind every breakout prefix: an axis-wise sweep (every vector x every prefix, separator, quoting, case mask, tag end, NUL position) followed by random products incl. per-byte character-reference encodings, leading junk and NUL/LF inside schemes, NUL bytes between '<' and a tag name, values whose opening quote is never closed, and one in twelve with one obfuscation (separator run, NUL/LF run inside the scheme, leading junk, white space around '=', NUL run inside the name) stretched to a threshold length between 63 and 65537 bytes. Oracle: IsXSS = true. " +
 			"Non-trivial = every member; distinct by string.",
 		Plan: func(tier string, seed uint64) []core.Unit {
 			total := g04SweepSize()
